@@ -6,7 +6,7 @@
 # Writes /tmp/mut/<ID>/out/confirm.log and prints a one-line verdict.
 set -u
 id="$1"; wt="/tmp/mut/$id"; out="$wt/out"
-export CARGO_NET_OFFLINE=true CARGO_TARGET_DIR=/tmp/mut/target
+export CARGO_NET_OFFLINE=true CARGO_TARGET_DIR=${CARGO_TARGET_DIR:-/tmp/mut/target}
 cd "$wt" || exit 2
 log="$out/confirm.log"; : >"$log"
 git apply -R --check "$out/patch.diff" 2>/dev/null || git apply "$out/patch.diff" 2>>"$log" || { echo "$id: patch does not apply"; exit 2; }
